@@ -10,7 +10,11 @@
 //	filepb <data> <total> <mode> <sec> <nsec> | folderpb <mode> <sec> <nsec> | wrap <data> |
 //	symlink <data> | hamt <data> <fanout> <hashtype> <mode> <sec> <nsec>
 //	                          bytes of the constructor; n = FSNodeFromBytes(bytes)  -> hex
-//	mode | ext | mtime | fsize | bytes | show
+//	filepb0 <data> <total> | folderpb0 | hamt0 <data> <fanout> <hashtype>   the constructors without stat
+//	load <hex>                n = FSNodeFromBytes(hex) (foreign message: unknown fields are retained)  -> show | err
+//	meta <mime> <size>        BytesForMetadata then MetadataFromBytes                  -> hex mime=<hex>
+//	metadec <hex>             MetadataFromBytes on structured messages (stateless)      -> mime=<hex> | err
+//	mode | ext | mtime | fsize | bytes | show | unwrap
 //	dec <hex>                 FSNodeFromBytes on structured, possibly odd, messages (stateless) -> show | err
 package main
 
@@ -98,7 +102,7 @@ func pbField(num int, wt protowire.Type, payload []byte) []byte {
 	return append(protowire.AppendTag(nil, protowire.Number(num), wt), payload...)
 }
 
-func genMsg(r *vh.Rand) []byte {
+func genMsg(r *vh.Rand, nestedUnknown bool) []byte {
 	var parts [][]byte
 	vint := func(num int, v uint64) []byte { return pbField(num, 0, protowire.AppendVarint(nil, v)) }
 	if !r.Chance(1, 10) {
@@ -140,7 +144,7 @@ func genMsg(r *vh.Rand) []byte {
 		if r.Chance(1, 10) {
 			m = append(m, vint(1, uint64(vh.Pick(r, secs)))...) // duplicate seconds: last wins
 		}
-		if r.Chance(1, 10) {
+		if nestedUnknown && r.Chance(1, 10) {
 			m = append(m, vint(3, 9)...) // unknown field in the timestamp
 		}
 		parts = append(parts, pbField(8, 2, protowire.AppendBytes(nil, m)))
@@ -171,6 +175,32 @@ func genMsg(r *vh.Rand) []byte {
 	return bytes.Join(parts, nil)
 }
 
+// genMeta: a Data message of type Metadata (sometimes another type / odd inner message)
+func genMeta(r *vh.Rand) []byte {
+	var inner []byte
+	switch r.Intn(5) {
+	case 0:
+	case 1:
+		inner = pbField(1, 2, protowire.AppendBytes(nil, r.Bytes(r.Intn(6))))
+		inner = append(inner, pbField(1, 2, protowire.AppendBytes(nil, []byte("second")))...) // last wins
+	case 2:
+		inner = pbField(1, 0, []byte{5}) // wrong wire type: ignored
+	case 3:
+		inner = []byte{0x0a, 9, 1} // truncated
+	default:
+		inner = pbField(1, 2, protowire.AppendBytes(nil, []byte(vh.Pick(r, []string{"text/plain", "", "\xff\xfe", "a"}))))
+	}
+	var b []byte
+	b = append(b, pbField(1, 0, protowire.AppendVarint(nil, uint64(vh.Pick(r, []int{3, 3, 3, 2, 1}))))...)
+	if !r.Chance(1, 6) {
+		b = append(b, pbField(2, 2, protowire.AppendBytes(nil, inner))...)
+	}
+	if r.Bool() {
+		b = append(b, pbField(3, 0, protowire.AppendVarint(nil, vh.Pick(r, u64s)))...)
+	}
+	return b
+}
+
 func gen(r *vh.Rand, tier string, n int, emit func(vh.Case)) {
 	// exhaustive sweep of the 4096 unix permission values (32 per case), node types cycling
 	for i := 0; i < 128; i++ {
@@ -186,12 +216,20 @@ func gen(r *vh.Rand, tier string, n int, emit func(vh.Case)) {
 		c := vh.Case{ID: strconv.Itoa(i)}
 		if r.Chance(1, 8) {
 			for j, m := 0, 1+r.Intn(6); j < m; j++ {
-				c.Ops = append(c.Ops, "dec "+vh.Hex(genMsg(r)))
+				c.Ops = append(c.Ops, "dec "+vh.Hex(genMsg(r, true)))
+				if r.Chance(1, 4) {
+					c.Ops = append(c.Ops, "metadec "+vh.Hex(genMeta(r)))
+				}
 			}
 			emit(c)
 			continue
 		}
-		c.Ops = append(c.Ops, "new "+strconv.Itoa(vh.Pick(r, []int{2, 2, 0, 1, 4, 5, 3})))
+		if r.Chance(1, 7) {
+			// a foreign message (unknown fields, odd order, duplicates) becomes the node, then the API is used
+			c.Ops = append(c.Ops, "load "+vh.Hex(genMsg(r, false)))
+		} else {
+			c.Ops = append(c.Ops, "new "+strconv.Itoa(vh.Pick(r, []int{2, 2, 0, 1, 4, 5, 3})))
+		}
 		nbs := 0
 		for j, m := 0, 3+r.Intn(18); j < m; j++ {
 			switch r.Intn(24) {
@@ -225,7 +263,15 @@ func gen(r *vh.Rand, tier string, n int, emit func(vh.Case)) {
 			case 15, 16:
 				c.Ops = append(c.Ops, "reload")
 			case 17:
-				switch r.Intn(5) {
+				switch r.Intn(9) {
+				case 5:
+					c.Ops = append(c.Ops, fmt.Sprintf("filepb0 %s %d", dataTok(r), vh.Pick(r, u64s)))
+				case 6:
+					c.Ops = append(c.Ops, vh.Pick(r, []string{"folderpb0", fmt.Sprintf("hamt0 %s %d %d", dataTok(r), vh.Pick(r, u64s), vh.Pick(r, u64s))}))
+				case 7:
+					c.Ops = append(c.Ops, fmt.Sprintf("meta %s %d", dataTok(r), vh.Pick(r, u64s)))
+				case 8:
+					c.Ops = append(c.Ops, "load "+vh.Hex(genMsg(r, false)))
 				case 0:
 					c.Ops = append(c.Ops, fmt.Sprintf("filepb %s %d %s %s", dataTok(r), vh.Pick(r, u64s), modeTok(r), timeTok(r)))
 				case 1:
@@ -245,7 +291,7 @@ func gen(r *vh.Rand, tier string, n int, emit func(vh.Case)) {
 			case 20, 21:
 				c.Ops = append(c.Ops, "fsize")
 			case 22:
-				c.Ops = append(c.Ops, "bytes")
+				c.Ops = append(c.Ops, vh.Pick(r, []string{"bytes", "bytes", "unwrap"}))
 			default:
 				c.Ops = append(c.Ops, "show")
 			}
@@ -310,8 +356,8 @@ func show(n *unixfs.FSNode) string {
 	for i, b := range n.BlockSizes() {
 		bs[i] = strconv.FormatUint(b, 10)
 	}
-	return fmt.Sprintf("type=%d data=%s bs=[%s] ht=%d fo=%d mode=%d ext=%d mtime=%s fsize=%d",
-		int32(n.Type()), showData(n.Data()), strings.Join(bs, ","), n.HashType(), n.Fanout(), uint32(n.Mode()), n.ExtendedMode(),
+	return fmt.Sprintf("type=%d dir=%v data=%s bs=[%s] ht=%d fo=%d mode=%d ext=%d mtime=%s fsize=%d",
+		int32(n.Type()), n.IsDir(), showData(n.Data()), strings.Join(bs, ","), n.HashType(), n.Fanout(), uint32(n.Mode()), n.ExtendedMode(),
 		strings.ReplaceAll(showTime(n.ModTime()), " ", "."), n.FileSize())
 }
 
@@ -509,6 +555,69 @@ func exec(c vh.Case, o *vh.Out) {
 			d, m, t := parseData(f[1]), u32(f[4]), parseTime(f[5], f[6])
 			b, _ := unixfs.HAMTShardDataWithStat(d, u64(f[2]), u64(f[3]), os.FileMode(m), t)
 			s.load(o, b, m, t, true, "hamt")
+		case "filepb0":
+			s.load(o, unixfs.FilePBData(parseData(f[1]), u64(f[2])), 0, time.Time{}, true, "filepb0")
+		case "folderpb0":
+			s.load(o, unixfs.FolderPBData(), 0, time.Time{}, true, "folderpb0")
+		case "hamt0":
+			b, _ := unixfs.HAMTShardData(parseData(f[1]), u64(f[2]), u64(f[3]))
+			s.load(o, b, 0, time.Time{}, true, "hamt0")
+		case "load":
+			m, err := unixfs.FSNodeFromBytes(vh.UnHex(f[1]))
+			if err != nil {
+				o.Kind("load-err")
+				o.Emit("err")
+				break
+			}
+			// retention: what was loaded is re-emitted; unknown fields must survive the round trip
+			if b, err := m.GetBytes(); err == nil {
+				if m2, err := unixfs.FSNodeFromBytes(b); err != nil {
+					o.Fail("decode-own-encoding", "FSNodeFromBytes(GetBytes()) of a loaded node: %v", err)
+				} else if b2, _ := m2.GetBytes(); !bytes.Equal(b, b2) {
+					o.Fail("reencode-not-stable", "GetBytes not stable across a reload: %x vs %x", b, b2)
+				}
+			}
+			s.n, s.tracked = m, false
+			o.Kind("load-ok")
+			o.Emit("%s", show(m))
+		case "meta":
+			mime := parseData(f[1])
+			b, err := unixfs.BytesForMetadata(&unixfs.Metadata{MimeType: string(mime), Size: u64(f[2])})
+			if err != nil {
+				o.Emit("err")
+				break
+			}
+			md, err := unixfs.MetadataFromBytes(b)
+			if err != nil {
+				o.Fail("metadata-roundtrip", "MetadataFromBytes(BytesForMetadata(..)): %v", err)
+				o.Emit("err")
+				break
+			}
+			if md.MimeType != string(mime) {
+				o.Fail("metadata-roundtrip", "MimeType %q read back as %q", mime, md.MimeType)
+			}
+			o.Kind("meta")
+			o.Emit("%s mime=%s", vh.Hex(b), vh.Hex([]byte(md.MimeType)))
+		case "metadec":
+			md, err := unixfs.MetadataFromBytes(vh.UnHex(f[1]))
+			if err != nil {
+				o.Kind("metadec-err")
+				o.Emit("err")
+			} else {
+				o.Kind("metadec-ok")
+				o.Emit("mime=%s", vh.Hex([]byte(md.MimeType)))
+			}
+		case "unwrap":
+			b, _ := s.n.GetBytes()
+			d, err := unixfs.UnwrapData(b)
+			if err != nil {
+				o.Emit("err")
+			} else {
+				if !bytes.Equal(d, s.n.Data()) {
+					o.Fail("unwrap-mismatch", "UnwrapData(GetBytes()) differs from Data()")
+				}
+				o.Emit("%s", showData(d))
+			}
 		case "mode":
 			o.Emit("%d", uint32(s.n.Mode()))
 		case "ext":
